@@ -280,9 +280,19 @@ def appendText (o : Nat) (src : Utf.Enc) (m : Mode) (units : Option (List Nat)) 
     | .throw e => throwE e
     | _ => fault .convAbort
 
-/-- `operator<<(int / long / long long)`: `if (num < 0) append_char('-'); append(formatter.text(), formatter.size())`
-    (unsigned: `neg = false`; floating point: `append` of the rendering).  The digits are given. -/
+/-- `operator<<(int / long / long long)` — as repaired:
+    `if (num < 0) { expand_buffer(formatter.size() + 1); append_char('-'); }  return append(formatter.text(), formatter.size());`
+    (room for sign and digits is made before the first append, so only that reservation can throw;
+    unsigned: `neg = false`; floating point: `append` of the rendering).  The digits are given. -/
 def appendNum (o : Nat) (neg : Bool) (digits : List Nat) : M Unit := do
+  if neg then
+    expandBuffer o (digits.length + 1)
+    appendChar o 45 1
+  append o digits
+
+/-- the signed overloads as first read: `if (num < 0) append_char('-'); return append(formatter.text(), formatter.size());`
+    — two appends, the second of which may throw after the first has changed the stream (kept for the witness theorem) -/
+def appendNumAsFound (o : Nat) (neg : Bool) (digits : List Nat) : M Unit := do
   if neg then appendChar o 45 1
   append o digits
 
